@@ -1051,6 +1051,13 @@ fn process_kad_response(event: KadResponseMsg, query_id: QueryId) -> HandlerEven
     }
 }
 
+#[cfg(libp2p_verif)]
+#[path = "verif_c42.rs"]
+pub mod verif_c42;
+#[cfg(libp2p_verif)]
+#[path = "verif_c43.rs"]
+pub mod verif_c43;
+
 #[cfg(test)]
 mod tests {
     use quickcheck::{Arbitrary, Gen};
